@@ -24,6 +24,10 @@ const TRIALS_PER_WORLD: usize = 12;
 
 #[derive(Clone, Debug, Serialize, Deserialize)]
 pub struct Trial {
+  /// rule tests first exist in an earlier state (fewer invalid cases), are snapshotted, then
+  /// extended and snapshotted again: the result must equal a from-scratch `test -U`
+  #[serde(default)]
+  pub incremental: bool,
   pub perm_seed: Option<u64>,
   pub hash_seed: u64,
   pub k: usize,
@@ -134,6 +138,18 @@ pub fn observe(w: &CliWorld, t: &Trial, with_tests: bool) -> Obs {
   w.write_sources(&root);
   // 3. rule tests: update snapshots, then verify
   if with_tests && w.with_tests {
+    if t.incremental {
+      w.write_tests(&root, true);
+      let p1 = cli_run::run_cli(&root, &[s("sg"), s("test"), s("-U")], mix64(t.hash_seed ^ 5), None);
+      let p2 = cli_run::run_cli(&root, &[s("sg"), s("test")], mix64(t.hash_seed ^ 6), None);
+      if p1.result.is_ok() && p2.result.is_err() {
+        o.test_after = format!("after `test -U` on the earlier test files, `test` says {}", first_line(p2.result.as_ref().err().unwrap()));
+        o.test_update = s("ok");
+        o.events_hash = events_hash;
+        return o;
+      }
+      w.write_tests(&root, false);
+    }
     let t1 = cli_run::run_cli(&root, &[s("sg"), s("test"), s("-U")], mix64(t.hash_seed ^ 3), None);
     o.test_update = match &t1.result {
       Ok(()) => s("ok"),
@@ -233,13 +249,14 @@ fn check_single(o: &Obs) -> Option<(String, String)> {
 }
 
 fn canonical_trial(seed: u64) -> Trial {
-  Trial { perm_seed: None, hash_seed: mix64(seed ^ 0xC0), k: 1, policy: Policy::Canonical, sched_seed: 0 }
+  Trial { incremental: false, perm_seed: None, hash_seed: mix64(seed ^ 0xC0), k: 1, policy: Policy::Canonical, sched_seed: 0 }
 }
 
 fn gen_trial(seed: u64, i: usize) -> Trial {
   let mut r = Rng::stream(mix64(seed ^ (i as u64 + 1).wrapping_mul(0x9E37_79B9)), "trial");
   let what = r.below(10);
   Trial {
+    incremental: r.chance(0.5),
     // some trials vary only the hash seed (a plain re-launch), some only the order
     perm_seed: if what == 0 { None } else { Some(r.next_u64()) },
     hash_seed: if what == 1 { mix64(seed ^ 0xC0) } else { r.next_u64() },
@@ -373,6 +390,9 @@ impl Simulation for C13Sim {
         r.steps += o.steps;
         r.count(&format!("policy:{}", t.policy.name()));
         r.count(if t.perm_seed.is_some() { "policy:permuted-order" } else { "policy:same-order-new-hash-seed" });
+        if t.incremental && i % 3 == 0 {
+          r.count("probe:incremental_snapshot_update_compared_with_from_scratch");
+        }
         ev.push(format!("trial {i} {:016x} scan={:?}", o.events_hash, o.scan.as_ref().map(|x| x.as_ref().map(|y| y.0.len()).map_err(|e| e.clone()))));
         // distinct = (world, permutation, hash seed); non-trivial = the world has findings
         if matches!(&o.scan, Some(Ok((recs, _))) if !recs.is_empty()) {
